@@ -405,6 +405,10 @@ class CliFileUtil:
                             "sel": ["HELLO"]})
             for fsn in ("one", "two", "lower"):
                 out.append({"id": "fu/%s-to-bin/%s" % (src, fsn), "k": "tobin", "src": src, "set": fsn})
+            # --to_bin together with --files: naming the single file of a one-file image (any letter case) writes its data;
+            # a name that matches nothing writes nothing usable
+            for sel in (["ALPHA"], ["alpha"], ["Alpha"], ["NOPE"]):
+                out.append({"id": "fu/%s-to-bin/one/files=%s" % (src, sel[0]), "k": "tobin", "src": src, "set": "one", "sel": sel})
             out.append({"id": "fu/%s-to-bin/empty-image" % src, "k": "tobin-empty", "src": src})
             out.append({"id": "fu/chain/%s" % ("cas-dsk-cas" if src == "cas" else "dsk-cas-dsk"), "k": "chain", "src": src})
             for pre in ("cas", "dsk", "raw"):
@@ -479,11 +483,18 @@ class CliFileUtil:
         src, fsn = cell["src"], cell["set"]
         files = FILESETS[fsn]
         host = "host." + src
-        r = run_cli(env, "file_util", {"host_filename": host, "to_bin": "out.bin"}, {host: make_image(src, files)})
-        sig = lambda w: (lambda: "fu/%s-to-bin/%s:%s" % (src, fsn, w)) if native else None
+        args = {"host_filename": host, "to_bin": "out.bin"}
+        sel = cell.get("sel")
+        if sel:
+            args["files"] = list(sel)
+        r = run_cli(env, "file_util", args, {host: make_image(src, files)})
+        sig = lambda w: (lambda: "fu/%s-to-bin/%s%s:%s" % (src, fsn, ("/files=" + sel[0]) if sel else "", w)) if native else None
         if not self._gate(env, r, sig):
             return
         after = r.fs.get("out.bin")
+        if sel and sel[0].upper() not in [f[0].upper() for f in files]:
+            env.ensure("C16:to-bin-selection", not after, ("C16",), sig("unselected-file-written:%s" % (None if after is None else len(after))))
+            return
         if len(files) > 1:
             env.ensure("C16:to-bin-refuses-many", after is None and r.exit not in (None, 0), ("C16",), sig("written-or-exit0:exit=%s" % r.exit))
         else:
